@@ -30,6 +30,8 @@ pub enum When {
     WhileCompiling,
     /// once k MPC messages have been delivered (the computation is held at that point)
     AfterMsg(usize),
+    /// while a notification of the target to its output destination is in flight (`hold_outputs`)
+    OutputInFlight,
 }
 
 #[derive(Clone, Debug, PartialEq, Eq, Hash, Serialize, Deserialize)]
@@ -53,6 +55,9 @@ pub struct Plan {
     /// when the script is exhausted, choose by this strategy instead of "first enabled"
     #[serde(default)]
     pub strategy: Option<Strategy>,
+    /// notifications to output destinations stay in flight until delivered by the explorer
+    #[serde(default)]
+    pub hold_outputs: bool,
     pub inject: Option<(When, usize, Stray)>,
     pub cancel: Option<(When, usize)>,
     /// fail (instead of deliver) the first coordination RPC of this kind from -> to
@@ -162,6 +167,7 @@ pub async fn explore(cfg: &SrvConfig, plan: &Plan, baseline_threads: usize) -> O
     let world = SrvWorld::new(n, cfg.concurrency);
     let ctl = world.ctl.clone();
     ctl.inner.lock().unwrap().split_replies = plan.split_replies;
+    ctl.inner.lock().unwrap().hold_outputs = plan.hold_outputs;
     let mut strat_rng = crate::sim::sched::Mix(match &plan.strategy {
         Some(Strategy::Random(s)) => *s,
         _ => 1,
@@ -286,6 +292,17 @@ pub async fn explore(cfg: &SrvConfig, plan: &Plan, baseline_threads: usize) -> O
                 quiesce(&ctl, baseline_threads).await;
             }
         }
+        if let Some((When::OutputInFlight, target)) = &plan.cancel {
+            if !cancel_done && ctl.pending_full().iter().any(|p| p.1 == RpcKind::Output && p.2 == *target) {
+                obs.target_scheduled_before = sched_issued[*target];
+                obs.injected_state = Some("Executing(result being delivered)".into());
+                ctl.event(LogEv::Action(format!("cancel ->{target} while its notification is in flight")));
+                cancel_task = Some(do_cancel(*target, &world));
+                cancel_done = true;
+                obs.trigger_fired = true;
+                quiesce(&ctl, baseline_threads).await;
+            }
+        }
         if let Some((When::Step(k), target)) = &plan.cancel {
             if !cancel_done && *k == step {
                 let log = ctl.inner.lock().unwrap().log.clone();
@@ -331,6 +348,11 @@ pub async fn explore(cfg: &SrvConfig, plan: &Plan, baseline_threads: usize) -> O
                     let r = h.schedule(pol).await.map_err(|e| format!("{e:?}"));
                     c2.event(LogEv::ScheduleDone { party: p, result: r });
                 }));
+            }
+            Act::Deliver(pid) if pend_full.iter().any(|x| x.0 == pid && x.1 == RpcKind::Output) => {
+                let (_, _, from, _, _) = *pend_full.iter().find(|x| x.0 == pid).unwrap();
+                ctl.event(LogEv::Action(format!("deliver notification of {from}")));
+                ctl.decide(pid, Decision::Deliver);
             }
             Act::Deliver(pid) if pend_full.iter().any(|x| x.0 == pid && x.4) => {
                 let (_, kind, from, to, _) = *pend_full.iter().find(|x| x.0 == pid).unwrap();
